@@ -163,6 +163,7 @@ Definition get_ticket_id_from_pos (s : state) (p : N) : N :=
   if pos2id s p =? 0 then p else pos2id s p.
 
 Definition try_create_tickets (s : state) (buyer n : N) : res state :=
+  do_ require (0 <? n);
   do_ require (match range s buyer with None => true | Some _ => false end);
   let first := last_ticket_id s + 1 in
   do m <- usub (u64_lim - 1) n;
